@@ -19,9 +19,12 @@ import (
 	"hash/fnv"
 	"net/http"
 	"os"
+	"runtime"
 	"sort"
 	"strings"
+	"sync"
 	"time"
+	"unsafe"
 
 	"github.com/anishathalye/porcupine"
 	"github.com/jub0bs/cors"
@@ -567,7 +570,47 @@ type event struct {
 	burst int
 }
 
+// curGoid: the id of the calling goroutine (parsed from its stack header; only used when the
+// tree under test starts goroutines of its own).
+func curGoid() int64 {
+	var buf [40]byte
+	n := runtime.Stack(buf[:], false)
+	var id int64
+	for _, c := range buf[len("goroutine "):n] {
+		if c < '0' || c > '9' {
+			break
+		}
+		id = id*10 + int64(c-'0')
+	}
+	return id
+}
+
+// mine: is the caller this task's goroutine? Asked at every hook when the tree starts
+// goroutines of its own. The goroutine id costs a traceback, so the address of a local
+// variable is looked at first: within 16 KB of where this task was last seen it is taken to
+// be the task's own stack; anything else is settled by the id (a stack moves when it grows).
+func (t *ctask) mine() bool { return mineAt(&t.lastSP, t.goid) }
+
+func mineAt(last *uintptr, goid int64) bool {
+	var probe byte
+	sp := uintptr(unsafe.Pointer(&probe))
+	d := sp - *last
+	if sp < *last {
+		d = *last - sp
+	}
+	if d < 16<<10 {
+		return true
+	}
+	if curGoid() != goid {
+		return false
+	}
+	*last = sp
+	return true
+}
+
 type ctask struct {
+	lastSP    uintptr
+	goid      int64
 	id        int
 	wake      chan struct{}
 	done      bool
@@ -614,6 +657,7 @@ type sched struct {
 	inCrit   map[int]bool
 	wrapped  []http.Handler // per task: handler wrapped once in the initial state
 	inner    []*delegateH
+	onceBusy map[*sync.Once]bool
 	shared   http.Handler   // one handler wrapped once, used by all tasks
 	curInner []http.Handler // per task: what the shared handler's inner handler is while that task runs
 	// dry-run measurement
@@ -633,6 +677,9 @@ func (s *sched) mix(task int, label string) {
 // yield is the schedule point (called on the running task's goroutine).
 func (s *sched) yield(label, class string) {
 	t := s.tasks[s.cur]
+	if simrt.TreeStartsGoroutines && !t.mine() {
+		return // a goroutine the library started: it runs free
+	}
 	s.yields++
 	if s.yields > yieldCap {
 		fatal2("watchdog: more than %d schedule points in one run (livelock?) plan=%s", yieldCap, clip(string(planJSON(s.p)), 3000))
@@ -675,6 +722,12 @@ func (s *sched) handoff(ev event) {
 
 func (s *sched) acquire(try func() bool, label string) {
 	t := s.tasks[s.cur]
+	if simrt.TreeStartsGoroutines && !t.mine() {
+		for !try() { // a goroutine the library started: it waits for the lock like anybody else
+			runtime.Gosched()
+		}
+		return
+	}
 	for !try() {
 		s.c.hit("acquire_parked")
 		s.c.logf("t%d parks on lock at %s", t.id, label)
@@ -688,6 +741,9 @@ func (s *sched) acquire(try func() bool, label string) {
 }
 
 func (s *sched) released() {
+	if simrt.TreeStartsGoroutines && !s.tasks[s.cur].mine() {
+		return
+	}
 	s.relGen++
 	s.inCrit[s.cur] = false
 	s.tasks[s.cur].relSeen = true
@@ -983,6 +1039,9 @@ func (s *sched) doReq(task int, op COp) {
 }
 
 func (s *sched) runTask(t *ctask) {
+	if simrt.TreeStartsGoroutines {
+		t.goid = curGoid()
+	}
 	<-t.wake
 	for i, op := range s.p.Tasks[t.id].Ops {
 		t.opIdx, t.yieldInOp, t.relSeen, t.seamSeen = i, 0, false, false
@@ -1018,12 +1077,38 @@ func newInitMW(p *C07Plan) (*cors.Middleware, bool) {
 
 func setHooks(s *sched) {
 	if s == nil {
-		simrt.YieldHook, simrt.AcquireHook, simrt.ReleasedHook = nil, nil, nil
+		simrt.YieldHook, simrt.AcquireHook, simrt.ReleasedHook, simrt.OnceHook = nil, nil, nil, nil
 		return
 	}
 	simrt.YieldHook = s.yield
 	simrt.AcquireHook = s.acquire
 	simrt.ReleasedHook = s.released
+	simrt.OnceHook = s.onceDo
+}
+
+// onceDo: sync.Once.Do of the library. While one task is inside f (possibly preempted there),
+// another caller parks in the scheduler - in the Go runtime it would block with the baton in
+// hand. The real Once still decides whether f runs at all.
+func (s *sched) onceDo(o *sync.Once, f func()) {
+	t := s.tasks[s.cur]
+	if simrt.TreeStartsGoroutines && !t.mine() {
+		o.Do(f)
+		return
+	}
+	for s.onceBusy[o] {
+		s.c.hit("once_parked")
+		t.blocked = true
+		s.mix(t.id, "park:once")
+		s.handoff(event{kind: evBlocked})
+	}
+	s.onceBusy[o] = true
+	defer func() {
+		delete(s.onceBusy, o)
+		for _, u := range s.tasks {
+			u.blocked = false
+		}
+	}()
+	o.Do(f)
 }
 
 func newSched(p *C07Plan, c *Ctx, measure bool) (*sched, bool) {
@@ -1031,7 +1116,7 @@ func newSched(p *C07Plan, c *Ctx, measure bool) (*sched, bool) {
 	if !ok {
 		return nil, false
 	}
-	s := &sched{p: p, c: c, m: m, ctl: make(chan event), preempts: map[[3]int]Preempt{}, measure: measure, inCrit: map[int]bool{}}
+	s := &sched{p: p, c: c, m: m, ctl: make(chan event), preempts: map[[3]int]Preempt{}, measure: measure, inCrit: map[int]bool{}, onceBusy: map[*sync.Once]bool{}}
 	for _, pr := range p.Preempts {
 		s.preempts[[3]int{pr.Task, pr.Op, pr.Yield}] = pr
 	}
@@ -1282,6 +1367,8 @@ func (e c07) Exec(plan any, c *Ctx) *Violation {
 		bgDisabled = true
 	}
 	bg.vol = false // series of operator calls are written down in the volume plans (genVolume); every call here costs hundreds of schedule points
+	bg.bigLeft = 0 // ... and no five-digit request soak either (66000 requests are tens of millions of schedule points)
+	bg.soakCap = 600
 	for _, t := range p.Tasks {
 		for _, op := range t.Ops {
 			if op.Rep > 1 { // a volume plan has its series written down: no further ones on top
